@@ -58,9 +58,9 @@ from sim.env import SimEnv, UNIT
 
 ID = "C37"
 LEVEL = "exploration"
-QUICK_N = 120000
-THOROUGH_N = 4000000
-CHUNK = 400
+QUICK_N = 100000
+THOROUGH_N = 3000000
+CHUNK = 100  # the runner keeps the first 6 violating scenarios per chunk only
 CANCEL_RATE = 0.04
 RULE = ("gen(seed): program from the grammar {emit, wait on future / list / dict / explicit multi / "
         "moment / None / nested coroutine (native or same-form), try/except/finally, raise, re-raise, "
@@ -324,7 +324,7 @@ def validate(scn):
 # rendering
 
 
-def _render_fn(name, body, form, ids):
+def _render_fn(name, body, form, ids, kinds):
     lines = ["@gen.coroutine", f"def {name}():"] if form == "gen" else [f"async def {name}():"]
     kw = "yield" if form == "gen" else "await"
 
@@ -355,6 +355,7 @@ def _render_fn(name, body, form, ids):
                     ex = "" if form == "gen" else "asyncio.sleep(0)"
                 else:
                     ex = f"sub{st['j']}()"
+                    w = "s" + kinds[st["j"]][0]  # sn: native child, ss: child in the caller's form
                 lines.append(f"{ind}v = {kw} {ex}".rstrip())
                 lines.append(f"{ind}emit(('got', '{w}', N(v)))")
             elif t == "try":
@@ -378,8 +379,11 @@ def _render_fn(name, body, form, ids):
             elif t == "reraise":
                 lines.append(ind + "raise")
             elif t == "ret":
+                lines.append(f"{ind}emit(('ret', 'r'))")
                 lines.append(f"{ind}return ('ret', {st['v']})")
             elif t == "gret":
+                # same emit in both forms; 'G' = spelled gen.Return in the generator form
+                lines.append(f"{ind}emit(('ret', '{'g' if catch_all else 'G'}'))")
                 if form == "gen" and not catch_all:
                     lines.append(f"{ind}raise gen.Return(('ret', {st['v']}))")
                 else:
@@ -401,9 +405,11 @@ def render(prog, form):
     """Source text of the program in form 'gen' (decorated generators) or 'nat' (async def)."""
     ids = [0]
     lines = []
+    kinds = [sb["kind"] for sb in prog["subs"]]
     for j, sb in enumerate(prog["subs"]):
-        lines += _render_fn(f"sub{j}", sb["body"], "nat" if sb["kind"] == "native" else form, ids)
-    lines += _render_fn("top", prog["body"], form, ids)
+        lines += _render_fn(f"sub{j}", sb["body"], "nat" if sb["kind"] == "native" else form, ids,
+                            kinds)
+    lines += _render_fn("top", prog["body"], form, ids, kinds)
     return "\n".join(lines) + "\n"
 
 
@@ -647,16 +653,15 @@ def _run(scn, full_log):
                 probe("finally_ran")
             elif ev[0] == "cvset":
                 probe("cvset_in_body")
+            elif ev[0] == "ret":
+                probe({"r": "return_statement", "g": "gen_return_spelled_return",
+                       "G": "gen_Return_raised"}[ev[1]])
         if og[0] == "exc":
             probe("ended_with_exception")
         elif og[0] == "res":
             probe("ended_with_return_value" if og[1] is not None else "ended_with_none")
-        if "gen.Return" in src["gen"]:
-            probe("program_has_gen_return")
         if "yield" not in src["gen"].split("def top")[-1]:
             probe("top_not_a_generator")
-        if any(sb["kind"] == "same" for sb in prog["subs"]) and any(e[:2] == ("got", "s") for e in tg):
-            probe("nested_called")
         if S["susp"]:
             probe("decorated_suspended")
         nontrivial = status == "done" and S["susp"] and len(tg) >= 2
